@@ -15,6 +15,7 @@ class BuilderSystem:
     style = ";"
     ending = "\n"
     name = "builder"
+    deep = False         # True: search key = canon() refined by harness.deep_state(real builder); see engine_opseq._key
 
     def fresh(self):
         st = Sut(dict(self.cfg), self.cls)
